@@ -429,6 +429,10 @@ func TestReplay(t *testing.T) {
 			var c indexSpec
 			dec(&c)
 			checkRoundTrip(t, c)
+		case "roundtrip-aligned":
+			var c alignedCase
+			dec(&c)
+			checkAligned(t, c, nil, true)
 		case "roundtrip-scan":
 			var c scanRTCase
 			dec(&c)
